@@ -6,6 +6,7 @@ import (
 	"encoding/json"
 	"fmt"
 	"strings"
+	"sync/atomic"
 	"time"
 
 	"github.com/anishathalye/porcupine"
@@ -386,11 +387,19 @@ func doNested(m kv, o Op, keys int) (Rec, []Rec) {
 		m.Range(func(k, v int) bool {
 			rec.Seen = append(rec.Seen, [2]int{k, v})
 			n++
-			switch o.Mut {
-			case "del":
-				nested = append(nested, do(m, Op{K: "del", Key: k}))
-			case "store":
-				nested = append(nested, do(m, Op{K: "store", Key: (k + 1) % keys, Val: o.Val + n}))
+			if o.Mut != "" && k >= 0 && k < keys {
+				// a mutating call from inside the callback. Nothing promises that Range may
+				// be re-entered like this (the upstream sync.Map says so only in later
+				// versions, this fork's doc comment does not, and sync2.Set.Range warns
+				// of a deadlock): a run in which such a call never returns is not judged
+				inCallback.Add(1)
+				switch o.Mut {
+				case "del":
+					nested = append(nested, do(m, Op{K: "del", Key: k}))
+				case "store":
+					nested = append(nested, do(m, Op{K: "store", Key: (k + 1) % keys, Val: o.Val + n}))
+				}
+				inCallback.Add(-1)
 			}
 			if o.Stop > 0 && n >= o.Stop {
 				rec.Stopped = true
@@ -412,6 +421,7 @@ func (H) Execute(scAny any, cfg simrt.Config, st *core.Stats) (*simrt.Outcome, *
 		m = &strAnyMap{}
 	}
 	hist := make([][]Rec, 2+len(sc.Clients))
+	inCallback.Store(0)
 	cfg.StopWhenClientsDone = true // goroutines of the implementation itself (none on the pinned tree) do not keep a run alive
 	s := simrt.New(cfg)
 	s.Go(func() {
@@ -427,8 +437,6 @@ func (H) Execute(scAny any, cfg simrt.Config, st *core.Stats) (*simrt.Outcome, *
 				defer wg.Done()
 				for _, o := range sc.Clients[i] {
 					simrt.Yield()
-					// the record is appended before the call so that an operation
-					// that never returns is still in the history as pending
 					hist[1+i] = append(hist[1+i], doAll(m, o, sc.Keys)...)
 				}
 			})
@@ -448,6 +456,12 @@ func (H) Execute(scAny any, cfg simrt.Config, st *core.Stats) (*simrt.Outcome, *
 	}
 	if out.Truncated {
 		return out, core.NoProgress(out)
+	}
+	if core.Deadlocked(out) && inCallback.Load() > 0 {
+		// an implementation that holds a lock while it calls f is blocked by f's own
+		// Store or Delete, and everybody else behind it: not promised not to
+		st.Add("oracle.reentrant_range_call_never_returned", 1)
+		return out, nil
 	}
 	if core.Deadlocked(out) {
 		return out, &core.Violation{Signature: "deadlock", Detail: "run ended with tasks blocked forever: " + strings.Join(out.StuckTasks, ", ")}
@@ -511,6 +525,10 @@ var model = porcupine.Model{
 	},
 }
 
+// inCallback counts the mutating calls made from inside a Range callback that
+// have not returned (one simulation runs at a time; reset by Execute).
+var inCallback atomic.Int32
+
 func mutates(k string) bool { return k == "store" || k == "los" || k == "lad" || k == "del" }
 
 func check(sc *Scenario, hist [][]Rec, st *core.Stats) *core.Violation {
@@ -523,7 +541,12 @@ func check(sc *Scenario, hist [][]Rec, st *core.Stats) *core.Violation {
 			if r.Inv < 0 {
 				continue
 			}
-			if mutates(r.Op.K) {
+			if mutates(r.Op.K) && r.Op.Key >= 0 && r.Op.Key < sc.Keys {
+				// a LoadOrStore that loaded and a LoadAndDelete that found nothing have
+				// not touched the key: they do not excuse a Range from visiting it
+				if r.Done && (r.Op.K == "los" && r.OK || r.Op.K == "lad" && !r.OK) {
+					continue
+				}
 				ret := r.Ret
 				if !r.Done {
 					ret = inf
